@@ -469,19 +469,19 @@ end
 
 /-! ### the smart constructors on canonical parts -/
 
-theorem complement_of_not_compl (l : Loc) (h : isCompl l = false) : l.complement = compl l := by
-  cases l <;> simp_all [complement, isCompl]
+theorem complement_of_not_compl (l : Loc) (h : isComplC l = false) : l.complement = compl l := by
+  cases l <;> simp_all [complement, isComplC]
 
-theorem flattenOrd_of_not_ordered (l : Loc) (h : isOrdered l = false) : flattenOrd l = [l] := by
-  cases l <;> simp_all [flattenOrd, isOrdered]
+theorem flattenOrd_of_not_ordered (l : Loc) (h : isOrderedC l = false) : flattenOrd l = [l] := by
+  cases l <;> simp_all [flattenOrd, isOrderedC]
 
-theorem flattenOrdList_of_none : ∀ ls : List Loc, ls.any isOrdered = false → flattenOrdList ls = ls
+theorem flattenOrdList_of_none : ∀ ls : List Loc, ls.any isOrderedC = false → flattenOrdList ls = ls
   | [], _ => by simp [flattenOrdList]
   | l :: ls, h => by
       simp only [List.any_cons, Bool.or_eq_false_iff] at h
       simp [flattenOrdList, flattenOrd_of_not_ordered l h.1, flattenOrdList_of_none ls h.2]
 
-theorem order_of_canon (ls : List Loc) (h2 : 2 ≤ ls.length) (h : ls.any isOrdered = false) :
+theorem order_of_canon (ls : List Loc) (h2 : 2 ≤ ls.length) (h : ls.any isOrderedC = false) :
     order ls = ordered ls := by
   unfold order
   rw [flattenOrdList_of_none ls h]
